@@ -13,6 +13,7 @@ pub mod c08;
 pub mod c10;
 pub mod c11;
 pub mod c14;
+pub mod c19;
 pub mod c14b;
 pub mod c11d;
 
@@ -52,6 +53,7 @@ pub fn run(id: &str, tier: Tier) -> i32 {
         "C10" => c10::run(tier),
         "C11" => c11::run(tier),
         "C14" => c14::run(tier),
+        "C19" => c19::run(tier),
         _ => {
             eprintln!("MACHINERY: no check for {id}");
             2
@@ -73,6 +75,7 @@ pub fn replay(id: &str, file: &serde_json::Value) -> i32 {
         "C10" => c10::replay,
         "C11" => c11::replay,
         "C14" => c14::replay,
+        "C19" => c19::replay,
         _ => {
             eprintln!("MACHINERY: no replay for {id}");
             return 2;
